@@ -31,6 +31,8 @@ type s1Shape struct {
 	batchHeavy bool // Open/Symlink heavy workload (C14)
 	bigMsg     bool // oversize request shape
 	opMix      []string
+	precancel  bool
+	kinds      map[string]bool // oracle clauses this property owns (nil = all)
 }
 
 type s1op struct {
@@ -48,6 +50,7 @@ type s1op struct {
 	nfiles    int
 	fdExec    bool
 	cancelOK  bool
+	pre       []string // per Open item, what was at the path before the call: absent|regular|other|noparent
 }
 
 type s1res struct {
@@ -241,6 +244,7 @@ func plantObjects(c *vcore.Ctx) {
 		os.Remove(p)
 		kind := src.Pick("plant", "file", "dir", "symlink_file", "symlink_dir", "symlink_fifo", "dangling", "selfloop", "fifo", "socket", "unreadable", "symlink_outside")
 		c.Logf("plant %s at %s", kind, strings.TrimPrefix(p, s1Root))
+		c.Event("plant:" + kind)
 		switch kind {
 		case "file":
 			os.WriteFile(p, []byte("content"), 0644)
@@ -344,7 +348,23 @@ type s1Sim struct {
 	files []*os.File
 }
 
+// hostGoroutines counts goroutines executing methods of the host-side environment object.
+func hostGoroutines() int {
+	buf := make([]byte, 1<<20)
+	n := runtime.Stack(buf, true)
+	cnt := 0
+	for _, g := range strings.Split(string(buf[:n]), "\n\n") {
+		if strings.Contains(g, "container.(*container).") {
+			cnt++
+		}
+	}
+	return cnt
+}
+
 func (s *s1Sim) fail(kind, site, f string, a ...any) {
+	if s.sh.kinds != nil && !s.sh.kinds[kind] {
+		return
+	}
 	if s.viol == nil {
 		s.viol = vcore.Violate(s.sh.prop, kind, site, f, a...)
 	}
@@ -409,6 +429,7 @@ func (s *s1Sim) drive(op *s1op, done chan struct{}, cancel context.CancelFunc, a
 	destroyed := false
 	ticks := 0
 	for step := 0; step < 400; step++ {
+		vcore.Heartbeat()
 		synctest.Wait()
 		select {
 		case <-done:
@@ -524,11 +545,16 @@ func s1RunHistory(c *vcore.Ctx, sh *s1Shape) (v *vcore.Violation) {
 	func() {
 		defer func() {
 			if r := recover(); r != nil {
-				// the end-of-bubble deadlock panic (goroutines of the torn-down world that can
-				// never exit, e.g. the server's wait loop) is expected and ignored
+				// end-of-bubble deadlock panic: some goroutine of the torn-down world can never exit
 				if !strings.Contains(fmt.Sprint(r), "deadlock") {
 					harness = r
+					return
 				}
+				// goroutines of the bubble are still blocked after Destroy and teardown
+				if n := hostGoroutines(); n > 0 {
+					s.fail("goroutine_leak", "host", "%d goroutine(s) of the host-side environment are still blocked after Destroy returned", n)
+				}
+				s.c.Probe("bubble_left_blocked_goroutines")
 			}
 		}()
 		synctest.Test(simT, func(t *testing.T) {
@@ -595,6 +621,22 @@ func (s *s1Sim) run() {
 		if op.kind == "open" || op.kind == "delete" {
 			plantObjects(c)
 		}
+		if op.kind == "open" {
+			op.pre = nil
+			for _, it := range op.open {
+				st := "other"
+				if fi, err := os.Lstat(it.Path); err == nil {
+					if fi.Mode().IsRegular() && fi.Mode().Perm()&0600 == 0600 {
+						st = "regular"
+					}
+				} else if _, perr := os.Stat(filepath.Dir(it.Path)); perr != nil {
+					st = "noparent"
+				} else if os.IsNotExist(err) {
+					st = "absent"
+				}
+				op.pre = append(op.pre, st)
+			}
+		}
 		c.Logf("op %d: %s", i, op)
 		synctest.Wait()
 		w.mu.Lock()
@@ -615,6 +657,12 @@ func (s *s1Sim) run() {
 		w.mu.Lock()
 		w.curOp = i
 		w.mu.Unlock()
+		if allowCancel && sh.precancel && c.Src.Bool(1, 6, "precancel") {
+			c.Fault("cancel_before_call")
+			c.Logf("    ev cancel (before the call starts)")
+			c.Event("precancel")
+			cancel()
+		}
 		out := &s1res{}
 		done := make(chan struct{})
 		go func() { defer close(done); s.call(ctx, op, out) }()
@@ -756,9 +804,6 @@ func (s *s1Sim) check(i int, op *s1op, out *s1res, wasLost, cancelled, epilogue 
 		}
 	case "symlink":
 		if len(op.links) == 0 {
-			if out.err == nil {
-				s.fail("empty_batch_accepted", site, "Symlink(empty) returned no error")
-			}
 			return
 		}
 		if out.err != nil {
@@ -839,9 +884,6 @@ func (s *s1Sim) checkExecResult(op *s1op, out *s1res, site string, cancelled boo
 
 func (s *s1Sim) checkOpen(op *s1op, out *s1res, site string) {
 	if len(op.open) == 0 {
-		if out.err == nil {
-			s.fail("empty_batch_accepted", site, "Open(empty) returned no error")
-		}
 		return
 	}
 	if out.err != nil {
@@ -852,8 +894,23 @@ func (s *s1Sim) checkOpen(op *s1op, out *s1res, site string) {
 		s.fail("misaligned", site, "Open returned %d results for %d items", len(out.open), len(op.open))
 		return
 	}
+	seen := map[string]int{}
+	for _, req := range op.open {
+		seen[req.Path]++
+	}
 	for k, req := range op.open {
 		r := out.open[k]
+		if r.Err != nil && r.File == nil && seen[req.Path] == 1 && len(op.pre) == len(op.open) {
+			// items that must succeed whatever their neighbours do
+			acc := req.Flag & syscall.O_ACCMODE
+			mustOK := (op.pre[k] == "regular" && req.Flag&os.O_EXCL == 0) ||
+				(op.pre[k] == "absent" && req.Flag&os.O_CREATE != 0 && len(filepath.Base(req.Path)) < 200)
+			_ = acc
+			if mustOK {
+				s.fail("spurious_item_failure", "open", "Open item %d (%s, flags %#x, before the call: %s) failed: %v", k, req.Path, req.Flag, op.pre[k], r.Err)
+				return
+			}
+		}
 		if (r.File == nil) == (r.Err == nil) {
 			s.fail("misaligned", site, "Open item %d (%s): file=%v err=%v (exactly one must be set)", k, req.Path, r.File != nil, r.Err)
 			return
